@@ -51,10 +51,10 @@ pub fn be_packet(datagram: &mut BytesMut, dcid_len: usize) -> Result<Packet, Err
         nom::Err::Error(e) => e,
         _ => unreachable!("parsing packet type never generates failure"),
     })?;
-    let (remain, header) = be_header(pkty, dcid_len, remain).map_err(|e| match e {
-        ne @ nom::Err::Incomplete(_) => Error::IncompleteHeader(pkty, ne.to_string()),
-        _ => unreachable!("parsing packet header never generates error or failure"),
-    })?;
+    // besides running out of input, the header parser refuses a connection ID longer than 20 bytes
+    // (RFC 9000 17.2: such a packet MUST be dropped); either way the packet is not processed.
+    let (remain, header) = be_header(pkty, dcid_len, remain)
+        .map_err(|ne| Error::IncompleteHeader(pkty, ne.to_string()))?;
     match header {
         Header::VN(header) => {
             datagram.clear();
